@@ -22,7 +22,8 @@ PROPERTY = "C10"
 LEVEL = "fault_enumeration"
 RULE = (
     "A run = (NCP version) x (failure kind: ERROR(0x51 / 0x80), unsolicited RSTACK with a non-software "
-    "code, NCP silent from now on, connection_lost(OSError), EOF) x (crash point: emission of wire "
+    "code, NCP silent from now on, NCP rejecting the next one or three DATA frames with a NAK and silent "
+    "from then on, connection_lost(OSError), EOF) x (crash point: emission of wire "
     "event E[i] of the scripted workload, every i) x (offset: delivered before E[i] arrives / after it "
     "arrived) - plus, for every crash point at which a host timer (ACK, command, reset timeout) is "
     "pending in a silent-NCP variant, the failure delivered in the very loop iteration in which that "
@@ -39,7 +40,7 @@ ASSUMPTIONS = [
     "issued afterwards)",
     "connection loss reaches the protocol through call_soon from an I/O callback (schedule model DESIGN 2.1)",
 ]
-REACH = {t: ["kind_error", "kind_rstack", "kind_silent", "kind_lost", "kind_eof", "phase_bringup", "phase_idle",
+REACH = {t: ["kind_error", "kind_rstack", "kind_silent", "kind_naksilent", "kind_lost", "kind_eof", "phase_bringup", "phase_idle",
              "phase_inflight", "phase_reset", "phase_after_close", "reset_request_observed",
              "new_command_refused_at_once", "timer_aligned", "deliberate_close_silent", "queued_calls_released",
              "failure_after_an_earlier_unattended_failure"]
@@ -107,6 +108,10 @@ def run_case(V, case):
             elif kind == "rstack":
                 ws.spontaneous_reset(case["code"])
             elif kind == "silent":
+                ws.silent = True
+            elif kind == "naksilent":
+                # stops acknowledging "in a mixed way": NAKs the next DATA frame(s), then silence
+                ws.naks_before_silence = case.get("code") or 1
                 ws.silent = True
             elif kind == "lost":
                 ws.lose_connection("error")
@@ -268,7 +273,7 @@ def judge(V, case, trace, info):
         return bad, facts  # only bounded termination is demanded
     # 1. the application must be asked to reset
     observable = True
-    if kind == "silent":
+    if kind in ("silent", "naksilent"):
         # silence becomes observable when a DATA frame goes unacknowledged through the whole retry budget
         fd = next((e for e in trace if e[0] == "line" and e[2] == "h2n" and e[3] and e[3][0] == "D" and e[1] >= tf - 0.002), None)
         observable = fd is not None and (dc is None or dc >= fd[1] + B["ash"] + 0.01)
@@ -279,9 +284,9 @@ def judge(V, case, trace, info):
                         f"'_reset_controller_application' callback was observed"))
         else:
             facts.add("reset_request_observed")
-            lim = B["ash"] + B["cmd"] if kind == "silent" else 0.01
+            lim = B["ash"] + B["cmd"] if kind in ("silent", "naksilent") else 0.01
             first_after = rr[0][1] - tf
-            if kind != "silent" and first_after > lim:
+            if kind not in ("silent", "naksilent") and first_after > lim:
                 bad.append(("C10/report/late-reset-request", f"{kind}: reset request {first_after:.3f}s after the failure"))
     # 2. after the request: refused at once, nothing written
     if rr:
@@ -319,7 +324,8 @@ def pretty(trace):
 
 
 def kinds_for(tier):
-    ks = [("error", 0x51), ("error", 0x80), ("rstack", 0x02), ("rstack", 0x77), ("silent", None), ("lost", None), ("eof", None)]
+    ks = [("error", 0x51), ("error", 0x80), ("rstack", 0x02), ("rstack", 0x77), ("silent", None), ("lost", None), ("eof", None),
+          ("naksilent", 1), ("naksilent", 3)]
     if tier == "thorough":
         ks += [("rstack", c) for c in (0x00, 0x01, 0x03, 0x06, 0x09)] + [("error", 0x52)]
     return ks
@@ -349,7 +355,7 @@ def run_shard(desc) -> Acc:
         acc.hit(f)
     n = info0.get("n_frames", 0)
     cases = []
-    step = 1 if desc["tier"] == "thorough" or desc["kind"] in ("lost", "eof", "silent") else 2
+    step = 1 if desc["tier"] == "thorough" or desc["kind"] in ("lost", "eof", "silent", "naksilent") else 2
     for i in range(0, n + 1, step):
         for off in (0.0, 0.0015):
             cases.append({"kind": desc["kind"], "code": desc["code"], "at": i, "offset": off})
